@@ -432,11 +432,10 @@ class ContractType(AddressType, prim='contract', args_len=1):
         return cast(ContractType, res)
 
     def get_address(self) -> str:
-        return self.value.split('%')[0]
+        return self._split()[0]
 
     def get_entrypoint(self) -> str:
-        res = self.value.split('%')
-        return res[1] if len(res) == 2 else 'default'
+        return self._split()[1]
 
     def to_python_object(self, try_unpack=False, lazy_diff=False, comparable=False):
         assert not comparable, f'{self.prim} is not comparable'
